@@ -6,14 +6,17 @@
    from Prepare on: required_flag_invariant), hence a valid mandatory boundary that fits ends the line at once
    (mandatory_boundary_ends_line_partial).  That every accepted option ends at a cluster boundary of every run is C02
    (wrapped_pieces_exact, through is_valid_sound).
+   Proved over RETURNED lines (mandatory_break_ends_line_partial, Proofs/WrapMand2.v): after Prepare on well-formed runs
+   and any sequence of WrapNextLine calls with any widths, no returned line spans a mandatory boundary that is a cluster
+   boundary of every run - as long as no call has returned a nil line while the wrapper stays live (the pattern of finding
+   F37, on which an option is dropped); that is the only hypothesis beyond the property text.  The proof uses the converse
+   of is_valid_sound (a cluster boundary is always accepted by isValid: is_valid_spec2) and an invariant over the line
+   iterator threaded through both loops, postProcessLine and every call.
    The full line_end_allowed is FALSE of the faithful model on the truncated line (Findings/Wrap.v: f8_refuted).
-   NOT proved (oracle check_break_positions only): the global statements over RETURNED lines, "every returned line end is a
-   permitted position" for non-truncated lines and "no returned line spans a mandatory boundary that is a cluster boundary".
-   Missing: an invariant over both iterators saying that every option between the line start and the last option read was
-   processed on this line (finding F37 shows an option can be dropped when the grapheme fallback returns a nil line, so
-   the invariant has to exclude, or account for, that path), and the converse of is_valid_sound (a cluster boundary is
-   always accepted by isValid). *)
-From TV Require Import Model.Wrap Spec.Wrap Proofs.Wrap Proofs.WrapLines Proofs.WrapMand.
+   NOT proved (oracle check_break_positions only): the global statement over RETURNED lines "every returned line end is a
+   permitted position" for non-truncated lines, and the mandatory statement on the lines returned after a live nil line
+   (F37). *)
+From TV Require Import Model.Wrap Spec.Wrap Proofs.Wrap Proofs.WrapLines Proofs.WrapMand Proofs.WrapMand2.
 
 (* every UAX #14 candidate the breaker produces is the rune before a line boundary of the segmenter, candidates come
    in increasing order without skipping a boundary, and a candidate is required only at a mandatory boundary *)
@@ -55,13 +58,13 @@ Proof.
 Qed.
 Print Assumptions candidate_line_ends_after_option.
 
-(* mandatory_break_ends_line (partial): at the top of the UAX #14 loop of wrapNextLine (state satisfying the loop invariant
+(* required_option_ends_line (partial; one loop iteration of mandatory_break_ends_line): at the top of the UAX #14 loop of wrapNextLine (state satisfying the loop invariant
    JT and the ordering OrdO), when the breaker hands out a required option and processBreakOption answers "fits" (the option
    is valid, i.e. not fused into a cluster, and within the width), the call leaves the loop at once, not done, with the line
    alt ++ [cand] whose last piece is non-empty and which ends exactly one past the required option.
-   Missing for the full statement: that the required flag of an option re-issued from unusedWordBreak is the flag of a
-   mandatory boundary, and the global form over returned lines (no line spans a valid mandatory break). *)
-Theorem mandatory_break_ends_line_partial : forall n fuel w lc b1 opt w3 cand,
+   The flag of a re-issued option is covered by required_iff_mandatory, the global form over returned lines by
+   mandatory_break_ends_line_partial at the end of this file. *)
+Theorem required_option_ends_line_partial : forall n fuel w lc b1 opt w3 cand,
   JT n w -> OrdO w ->
   next_word_break (w_br w) = (b1, Some opt) -> snd opt = true ->
   process_break_option (set_br (checkpoint w) b1) opt lc = Ok (w3, Fits, cand) ->
@@ -70,7 +73,7 @@ Theorem mandatory_break_ends_line_partial : forall n fuel w lc b1 opt w3 cand,
   /\ 0 < o_cnt cand /\ chain (w_start w) (s_alt (w_sc w3) ++ [cand]) (fst opt + 1)
   /\ best_end (mark_best w3 [cand]) = fst opt + 1.
 Proof. exact required_fits_ends_line. Qed.
-Print Assumptions mandatory_break_ends_line_partial.
+Print Assumptions required_option_ends_line_partial.
 
 (* non-vacuity: "a LF b": the option after the line feed is required, fits at width 100, and the first call returns [0,2) *)
 Example mandatory_break_example :
@@ -110,11 +113,11 @@ Theorem required_flag_invariant :
 Proof. split; [exact BW_new|]. split; [exact outer_BW|]. split; [exact inner_BW|]. split; [exact wnl_BW|exact run_calls_BW]. Qed.
 Print Assumptions required_flag_invariant.
 
-(* mandatory_boundary_ends_line (partial): mandatory_break_ends_line_partial with the flag replaced by the segmenter's fact:
+(* mandatory_boundary_ends_line (partial): required_option_ends_line_partial with the flag replaced by the segmenter's fact:
    at the top of the UAX #14 loop (JT, OrdO, BW), when the next option lies before a mandatory boundary other than the
    text end and processBreakOption answers "fits" (valid — not fused into a cluster — and within the width), the call
    returns at once, not done, with a line ending exactly at that mandatory boundary.
-   Missing for the full statement: the global form over returned lines (no returned line spans a valid mandatory break). *)
+   The global form over returned lines is mandatory_break_ends_line_partial below. *)
 Theorem mandatory_boundary_ends_line_partial : forall n fuel w lc b1 opt w3 cand,
   JT n w -> OrdO w -> BW (w_br w) ->
   next_word_break (w_br w) = (b1, Some opt) ->
@@ -136,3 +139,45 @@ Example required_flag_example :
   /\ mandatory_boundary attrs 2 = true
   /\ snd (next_word_break (mark_word_unused (fst (next_word_break (new_breaker attrs))))) = Some (1, true).
 Proof. split; [apply BW_new|]. vm_compute. repeat split; reflexivity. Qed.
+
+(* ---- mandatory breaks and RETURNED lines (Proofs/WrapMand2.v) --------------------------------------------------- *)
+
+(* mandatory_break_ends_line over returned lines.  Prepare on well-formed runs (wf_runs on the store on entry, one break
+   attribute per rune + 1, at least one rune), then ANY number of WrapNextLine calls with ANY widths (run_calls records
+   every call's result (wrapped, done)).  Reading the results in order from rune 0, the text of a call's line covers the
+   runes [pos, NextLine) where pos is the NextLine of the previous call (mand_ok): no position p strictly inside it is a
+   valid mandatory break, i.e. line_boundary attrs p, mandatory_boundary attrs p (Spec/Wrap.v) and cluster_boundary of every
+   run on the entry store (valid_mandatory; p < NextLine <= n, so p is never the text end; the cluster fields are never
+   changed by a call).  This holds for every recorded call (for a nil line the range is empty).
+   The ONLY hypothesis beyond the property text is no_live_nil rs: no call returned a nil line with done = false, the
+   pattern of known finding F37 (there the pending option is dropped and the next line may span a mandatory break); hence
+   the name _partial.  The statement for the k-th call alone follows by applying the theorem to the first k widths
+   (run_calls on a prefix of the widths records a prefix of the results), so only the calls before it must avoid F37. *)
+Theorem mandatory_break_ends_line_partial : forall n w cfg attrs runs widths w' rs,
+  wf_runs (w_st w) runs n = true -> zlen attrs - 1 = n -> 1 <= n ->
+  run_calls (prepare w cfg attrs runs 0 0) widths = Ok (w', rs) ->
+  no_live_nil rs = true ->
+  mand_ok (valid_mandatory attrs (w_st w) runs) 0 rs.
+Proof. exact mandatory_lines_all. Qed.
+Print Assumptions mandatory_break_ends_line_partial.
+
+(* non-vacuity: "a LF b SP c" (5 runes, one left-to-right run of 1:1 glyphs), width 1000 >= the whole paragraph (256):
+   position 2 is a valid mandatory break strictly inside the text, the hypotheses hold, no call returns a live nil line,
+   and the calls return [0,2) (ending exactly at the mandatory break, not done), [2,5) (done), then the nil line *)
+Example mandatory_lines_example :
+  let st := [[mkGlyph 0 1 1 64 64 0 0 0; mkGlyph 1 1 1 0 0 0 0 0; mkGlyph 2 1 1 64 64 0 0 0;
+              mkGlyph 3 1 1 64 0 0 0 0; mkGlyph 4 1 1 64 64 0 0 0]; []] in
+  let attrs := [4; 4; 7; 4; 5; 7] in
+  let runs := [mkOut 256 0 0 5 0 0 5 0] in
+  wf_runs st runs 5 = true /\ zlen attrs - 1 = 5
+  /\ valid_mandatory attrs st runs 2
+  /\ exists w' rs, run_calls (prepare (w_zero st) cfg_zero attrs runs 0 0) [1000; 1000; 1000] = Ok (w', rs)
+       /\ no_live_nil rs = true
+       /\ map (fun x => (wl_next (fst x), snd x)) rs = [(2, false); (5, true); (5, true)]
+       /\ map (fun x => match wl_line (fst x) with Some l => map (fun o => (o_off o, o_cnt o)) l | None => [] end) rs
+          = [[(0, 2)]; [(2, 3)]; []].
+Proof.
+  cbv zeta. split; [vm_compute; reflexivity|]. split; [vm_compute; reflexivity|].
+  split; [unfold valid_mandatory; vm_compute; repeat split; reflexivity|].
+  eexists _, _. split; [vm_compute; reflexivity|]. vm_compute. repeat split; reflexivity.
+Qed.
